@@ -1,2 +1,32 @@
-(* Properties_C17.v -- placeholder until the listing proofs land. *)
-From HexVerif Require Import AsmSpec AsmLayout.
+(* Properties_C17.v -- the --instrs listing describes the binary: decoding the image at the listed offsets finds
+   exactly the listed instructions (opcode, operand, size) and data, in the listed order, with nothing but zeros in
+   between and after.  Statement = the spec validator AsmSpec.check_listing over the listing as a reader sees it
+   (AsmStatements.struct_listing: same items, order, offsets, operands and sizes as AsmLayout.listing prints).
+   Proofs: AsmLayoutProofs.v. *)
+From Coq Require Import ZArith List String Bool.
+From HexVerif Require Import WMap Isa AsmModel AsmLayout AsmSpec AsmStatements AsmLayoutProofs.
+Import ListNotations.
+Local Open Scope Z_scope.
+
+Theorem C17_listing_agrees :
+  forall prog locs out, Forall wf_directive prog -> assemble_directives prog locs = Ok out -> small (ao_layout out) ->
+    check_listing (struct_listing (ao_layout out)) (ao_image out) = true.
+Proof. exact listing_ok. Qed.
+Print Assumptions C17_listing_agrees.
+
+(* non-vacuity *)
+Definition C17_example : list directive :=
+  [DRef TBR "over"%string true] ++ repeat (DImm TLDAC 0) 16 ++
+  [DLabel LId "over"%string; DRef TLDAM "word"%string false; DRef TBR "over"%string true; DOpr TSVC;
+   DLabel LProc "word"%string; DData (-2)].
+Example C17_example_listing :
+  exists out, assemble_directives C17_example [] = Ok out /\
+    skipn 17 (struct_listing (ao_layout out)) =
+      [LLabel 18 0; LInstr 18 0 6 1; LInstr 19 9 (-3) 2; LOpr 21 3 1; LLabel 24 0; LData 24 (-2) 4; LPadding 0] /\
+    check_listing (struct_listing (ao_layout out)) (ao_image out) = true.
+Proof. eexists. split; [vm_compute; reflexivity|]. split; vm_compute; reflexivity. Qed.
+(* the validator refuses a listing whose operand is off by one *)
+Example C17_validator_refuses :
+  check_listing [LInstr 0 9 2 1; LInstr 1 3 17 2; LLabel 3 0; LOpr 3 3 1; LPadding 0] [146; 225; 49; 211] = true /\
+  check_listing [LInstr 0 9 1 1; LInstr 1 3 17 2; LLabel 3 0; LOpr 3 3 1; LPadding 0] [146; 225; 49; 211] = false.
+Proof. split; vm_compute; reflexivity. Qed.
